@@ -232,12 +232,38 @@ pub fn run_one<W: World>(cfg: &W::Cfg, prefix: &[u8], trace: bool) -> Result<Exe
         Some(ts.tv_sec as f64 + ts.tv_nsec as f64 * 1e-9)
     };
     let started = std::time::Instant::now();
+    // (CPU seconds, wall instant) of the previous sample: a thread cannot burn more CPU than wall
+    // time has passed, so a reading that jumps further is not this thread's clock (seen once in a
+    // thorough run: 305 s of "CPU" reported at the first sample that exceeded the limit, for an
+    // execution that replays in milliseconds - the clock id of a thread that has just exited
+    // resolves to another clock) and is discarded
+    let mut last_sample: (f64, std::time::Instant) = (0.0, started);
     loop {
         match rx.recv_timeout(std::time::Duration::from_secs(2)) {
-            Ok(r) => return r,
+            Ok(r) => {
+                // the thread is past its last statement of interest: wait for it to be gone, so
+                // that no execution thread is still unwinding its runtime when the process exits
+                let _ = handle.join();
+                return r;
+            }
             Err(std::sync::mpsc::RecvTimeoutError::Disconnected) => return Err("execution thread died".to_string()),
             Err(std::sync::mpsc::RecvTimeoutError::Timeout) => {
-                let cpu = cpu_of(&handle);
+                if handle.is_finished() {
+                    // the result is (about to be) in the channel
+                    match rx.recv_timeout(std::time::Duration::from_secs(5)) {
+                        Ok(r) => return r,
+                        Err(_) => return Err("execution thread ended without a result".to_string()),
+                    }
+                }
+                let cpu = cpu_of(&handle).and_then(|c| {
+                    let plausible = c - last_sample.0 <= last_sample.1.elapsed().as_secs_f64() + 1.0;
+                    if plausible {
+                        last_sample = (c, std::time::Instant::now());
+                        Some(c)
+                    } else {
+                        Some(last_sample.0)
+                    }
+                });
                 let spinning = match cpu {
                     Some(c) => c >= limit as f64,
                     // no CPU clock: fall back to a generous wall limit
